@@ -24,6 +24,12 @@ structure Obs where
   cw : Nat
   reading : Option Rd
   raised : Nat             -- exceptions that escaped into the hub during this operation (never, in the model)
+  -- listings by the consumer (compared for the correspondence; the specification ignores them:
+  -- the property text speaks of the notification stream only)
+  lcount : Nat             -- `_cb_blocker._count`
+  gate : Bool              -- `_cb_blocker.event` is set
+  lreads : List (Nat × Rd) -- listings in progress: id and the member read in flight, in start order
+  done : List (Nat × List Nat)  -- listings that have returned so far: id and the members returned
   deriving Repr, DecidableEq
 
 def insertSorted (x : Nat) : List Nat → List Nat
@@ -34,10 +40,14 @@ def sortNats (xs : List Nat) : List Nat := xs.foldr insertSorted []
 
 def obsOf (cfg : Cfg) (bad : Bool) (ns : List Note) (s : St) : Obs :=
   { bad := bad, notes := ns, mkeys := ns.map (fun e => cfg.keyOf e.2), errs := (ns.filter (raises cfg)).length, quiet := s.quiet,
-    nodes := sortNats s.nodes, members := s.members, qlen := s.queue.length,
+    nodes := sortNats s.nodes, members := s.members,
+    -- an update the worker has taken and is held back on is no longer in `_notification_queue`
+    qlen := if s.job.isNone then s.queue.length - 1 else s.queue.length,
     watching := s.watched.isSome, pending := s.pending.map (fun e => e == Ev.data), dw := s.dw,
     cw := s.cw.length,
-    reading := s.job.map (·.cur), raised := 0 }
+    reading := s.job.map (·.cur), raised := 0,
+    lcount := s.lists.length, gate := s.lists.isEmpty, lreads := s.lists.map (fun l => (l.id, l.cur)),
+    done := s.done }
 
 def step (cfg : Cfg) (s : St) (op : Op) : St × Obs :=
   match next cfg s op with
@@ -68,6 +78,9 @@ def decOp : List V → Option Op
   | [.a "deliver", x] => do pure (.deliver (← decOptNat x))
   | [.a "serve"] => some .serve
   | [.a "ret", x] => do pure (.ret (← decOptNat x))
+  | [.a "list", x] => do pure (.list (← decOptNat x))
+  | [.a "lserve", i] => do pure (.lserve (← i.nat?))
+  | [.a "lret", i, x] => do pure (.lret (← i.nat?) (← decOptNat x))
   | _ => none
 
 def encNote (e : Note) : V := .l [.a (if e.1 then "j" else "l"), V.ofNat e.2]
@@ -92,17 +105,34 @@ def decRd : V → Option (Option Rd)
   | .l [.a "srv", n, f] => do pure (some (.served (← n.nat?) (← f.bool?)))
   | _ => none
 
+def encLRead (p : Nat × Rd) : V := .l [V.ofNat p.1, encRd (some p.2)]
+def decLRead : V → Option (Nat × Rd)
+  | .l [i, r] => do
+    match ← decRd r with
+    | some rd => pure (← i.nat?, rd)
+    | none => none
+  | _ => none
+
+def encDone (p : Nat × List Nat) : V := .l [V.ofNat p.1, V.ofNats p.2]
+def decDone : V → Option (Nat × List Nat)
+  | .l [i, ms] => do pure (← i.nat?, ← ms.natList?)
+  | _ => none
+
 def encObs (o : Obs) : V :=
   .l [V.ofBool o.bad, .l (o.notes.map encNote), V.ofNats o.mkeys, V.ofNat o.errs, V.ofBool o.quiet,
       V.ofNats o.nodes, V.ofNats o.members, V.ofNat o.qlen, V.ofBool o.watching,
-      .l (o.pending.map encEv), V.ofBool o.dw, V.ofNat o.cw, encRd o.reading, V.ofNat o.raised]
+      .l (o.pending.map encEv), V.ofBool o.dw, V.ofNat o.cw, encRd o.reading, V.ofNat o.raised,
+      V.ofNat o.lcount, V.ofBool o.gate, .l (o.lreads.map encLRead), .l (o.done.map encDone)]
 
 def decObs : V → Option Obs
-  | .l [bad, .l notes, mkeys, errs, quiet, nodes, members, qlen, watching, .l pending, dw, cw, reading, raised] => do
+  | .l [bad, .l notes, mkeys, errs, quiet, nodes, members, qlen, watching, .l pending, dw, cw, reading, raised,
+        lcount, gate, .l lreads, .l done] => do
     pure { bad := ← bad.bool?, notes := ← notes.mapM decNote, mkeys := ← mkeys.natList?, errs := ← errs.nat?,
            quiet := ← quiet.bool?, nodes := ← nodes.natList?, members := ← members.natList?,
            qlen := ← qlen.nat?, watching := ← watching.bool?, pending := ← pending.mapM decEv,
-           dw := ← dw.bool?, cw := ← cw.nat?, reading := ← decRd reading, raised := ← raised.nat? }
+           dw := ← dw.bool?, cw := ← cw.nat?, reading := ← decRd reading, raised := ← raised.nat?,
+           lcount := ← lcount.nat?, gate := ← gate.bool?, lreads := ← lreads.mapM decLRead,
+           done := ← done.mapM decDone }
   | _ => none
 
 /-! ### specification over a history
@@ -201,9 +231,10 @@ def spec (cfg : Cfg) (h : List (Op × Obs)) : Verdict := specGo cfg Tree.init []
 
 /-! ### hypotheses
 
-  Every operation is enabled when it is issued, and its label (which new node the worker reads
-  next) is a legal choice.  Nothing else: tree operations, deliveries and reads may interleave
-  in any way. -/
+  Every operation is enabled when it is issued, and its label (which new node the worker — or a
+  listing — reads next) is a legal choice.  Nothing else: tree operations, deliveries, reads and
+  listings by the consumer (any number, overlapping each other and anything else) may
+  interleave in any way. -/
 
 def wfGo (cfg : Cfg) : St → List Op → Bool
   | _, [] => true
@@ -251,5 +282,19 @@ def demoOps : List Op :=
    .deliver none, .tree (.deleteChild 1), .tree (.deleteChild 7), .tree .deleteParent,
    .deliver none, .deliver none, .tree .createParent, .tree (.createChild 1),
    .deliver (some 1), .serve, .ret none]
+
+/-- what every client does: it lists the members right after constructing the ServerSet
+    (`LoadBalancerSink` → `GetServers()`), while the worker is still reading the first update.
+    That update goes on and is delivered; a member (1) appears meanwhile, the worker takes the
+    new update but is held back by the listing; a second listing overlaps the first; the first
+    returns ([0]: what it listed), the worker is still held back; the second (which listed 0
+    and 1; 0 vanishes before it is read) returns [1] — now the worker goes on with the two updates
+    that were waiting: [0, 1] (it reads 1: join 1), then [1] (leave 0), and the consumer ends up
+    holding exactly [1]. -/
+def listDemoOps : List Op :=
+  [.tree .createParent, .tree (.createChild 0), .start (some 0), .list (some 0), .serve, .ret none,
+   .tree (.createChild 1), .deliver none, .list (some 0), .lserve 0, .lret 0 none,
+   .tree (.deleteChild 0), .deliver none, .lserve 1, .lret 1 (some 1), .lserve 1, .lret 1 (some 1),
+   .serve, .ret none]
 
 end Scales.ServerSet
